@@ -52,6 +52,8 @@ PROP = {
         dict(_ASAN_O0, name="c05_array_2", src="c05_array.cpp", flags=["-O0", "-DC05_PART=2"]),
         dict(_ASAN_O0, name="c05_segarray_1", src="c05_segarray.cpp", flags=["-O0", "-DC05_PART=1"]),
         dict(_ASAN_O0, name="c05_segarray_2", src="c05_segarray.cpp", flags=["-O0", "-DC05_PART=2"]),
+        dict(_ASAN_O0, name="c05_array_3", src="c05_array.cpp", flags=["-O0", "-DC05_PART=3"]),
+        dict(_ASAN_O0, name="c05_segarray_3", src="c05_segarray.cpp", flags=["-O0", "-DC05_PART=3"]),
         dict(_ASAN_O0, name="c05_vector_1", src="c05_vector.cpp", flags=["-O0", "-DC05_PART=1"]),
         dict(_ASAN_O0, name="c05_vector_2", src="c05_vector.cpp", flags=["-O0", "-DC05_PART=2"]),
     ],
@@ -68,12 +70,30 @@ PROP = {
              "reserve(n), then grow to exactly n with every kind of growing operation. After every operation: size, capacity, all cells "
              "and all memory-manager calls are compared with the model; all elements with a std::vector that received the same "
              "operation. distinct_nontrivial counts distinct (configuration, operation shape = op line with numbers abstracted, "
-             "allocated or not, min(size,8)) on non-empty containers."),
+             "allocated or not, min(size,8)) on non-empty containers. "
+             "Added by the coverage round (54 configurations now: + Array, Array with ReallocateInplace manager, SegmentedArray sqrt/1 and "
+             "cnst/2, stdish::vector of a 'not nothrow-movable but nothrow-swappable' item = copy-and-swap idiom without move constructor): "
+             "objects are also created by (count) [value-initialised items; model: (count, Item())], (initializer_list, memManager / "
+             "allocator), CreateCap(n) [model op newcap; the reserve clause holds from birth, every third directed reserve scenario starts "
+             "from it] and CreateCrt(n, creator) [model op newcrt; property level: exactly n creator calls, the i-th with the address of "
+             "element i]. Every round ends with an access scenario on two objects - IsEmpty, GetBackItem() const, a walk over non-const "
+             "GetBegin()..GetEnd() with conversion to the const iterator and writes through the iterator (model op set), Contains(item, "
+             "equalFunc) against std::any_of and IsEqual(array, equalFunc) against std::equal on the reference sequences with a call-counting "
+             "functor (exact / modulo m; element, absent value, copy, one element replaced, one more, one less, both directions; default "
+             "functor for std::string), then the model answers `get` (nothing changed) - and, for momo::Array, a capacity-overflow scenario "
+             "on an empty and a non-empty object: Reserve / SetCount(n) / SetCount(n, item) / CreateCap / CreateCrt / (count) / (count, item) "
+             "with n * sizeof(Item) > SIZE_MAX must throw std::bad_array_new_length before any memory-manager call and leave count, "
+             "capacity and cells as they were (model: `get`). c05_segarray_3 adds a directed property-level scenario for "
+             "SegmentedArray::pvAllocateSegment's std::length_error: 4 KiB items with logInitialItemCount 50 (sqrt; segment 4 would need "
+             "2^64 bytes) and 52 (cnst; no segment fits) over a ledger memory manager that really allocates at most 64 KiB per block: "
+             "Reserve / SetCount / CreateCap / CreateCrt / (count) / (count, item) / AddBack / Insert beyond the representable capacity "
+             "throw std::length_error, contents, count and capacity unchanged, outstanding blocks = blocks the container owns, the "
+             "container usable afterwards (AddBack, RemoveBack, assignment, Reserve up to the last representable capacity, Shrink)."),
     "runtime_only": ["double destruction / leak / use of a destroyed item inside raw storage (ASan, items own heap memory)",
                      "no live block of the logging memory manager remains after every object was destroyed"],
     "not_modelled": ["exceptions from item constructors/assignments and from the memory manager (strong/basic guarantees are C04)",
-                     "size_t overflow of capacities and the length_error / bad_array_new_length paths",
+                     "size_t overflow of capacities: the length_error / bad_array_new_length paths are checked at property level only (the model's capacities are unbounded naturals; it confirms the unchanged state with `get`)",
                      "allocator propagation and unequal allocators of stdish::vector (pvCreateArray's element-wise path) - C14",
                      "iterators returned by stdish::vector (C06) and iterator invalidation",
-                     "Contains / IsEqual / comparison operators (read-only)"],
+                     "Contains / IsEqual (property level only: std::any_of / std::equal on the reference sequence), comparison operators of stdish::vector"],
 }
